@@ -277,6 +277,20 @@ def _run_history(hist, rec):
                                   f'history {hist[:step + 1]}: LL={got!r} / {float(d.function)!r}, scaled={gots!r}; weighted sum over the '
                                   f'{len(rows)} current rows = {want!r}', case, expected=want, observed=got)
                     return
+            elif op == 'lld':
+                # the derivatives entry point asked FIRST (no plain likelihood before it)
+                names = list(b.free_beta_names)
+                xv = np.array([x[nm] for nm in names], dtype=float)
+                d = b.calculate_likelihood_and_derivatives(xv, scaled=False, hessian=False, bhhh=False)
+                ds = b.calculate_likelihood_and_derivatives(xv, scaled=True, hessian=False, bhhh=False)
+                want = ref_sum(x)
+                rec.case(key, (hist[:step + 1], round(float(d.function), 9)), outcome=('lld', len(rows)))
+                if not close(float(d.function), want, 1e-9) or not close(float(ds.function), want / len(rows), 1e-9):
+                    rec.violation(f'C04|ll-not-weighted-sum-after-history|{"big-threads" if "new_big" in hist[:step + 1] else "small"}',
+                                  f'history {hist[:step + 1]}: calculate_likelihood_and_derivatives reports {float(d.function)!r}, scaled '
+                                  f'{float(ds.function)!r}; weighted sum over the {len(rows)} current rows = {want!r}', case,
+                                  expected=want, observed=float(d.function))
+                    return
             elif op == 'sim':
                 out = b.simulate({nm: x[nm] for nm in b.free_beta_names})
                 ll = [float(v) for v in out['log_like']]
@@ -343,8 +357,8 @@ def history_list(tier):
     # the table is edited through the Database interface (scale a column, add a column, remove rows) between the uses of a
     # model object: depth 2..4 (quick) / 5 (thorough) over that sub-alphabet, at least one edit
     for n in range(2, (4 if tier == 'quick' else 5) + 1):
-        for h in itertools.product(['new', 'scale', 'addcol', 'remove', 'll', 'sim'], repeat=n):
-            if h[0] not in ('new', 'scale', 'addcol') or h[-1] not in ('ll', 'sim') or 'new' not in h:
+        for h in itertools.product(['new', 'scale', 'addcol', 'remove', 'll', 'lld', 'sim'], repeat=n):
+            if h[0] not in ('new', 'scale', 'addcol') or h[-1] not in ('ll', 'lld', 'sim') or 'new' not in h:
                 continue
             if not ({'scale', 'addcol'} & set(h)) or h.count('remove') > 1 or h.count('new') > 2:
                 continue
